@@ -266,6 +266,24 @@ func (tt *TermTable) Bin(op Op, a, b *Term) *Term {
 				return a
 			}
 		}
+		// division/remainder by a power of two 2^s (positive as a signed value): shifts instead of a divider circuit
+		if s := uint64(bits.TrailingZeros64(k)); k != 0 && k&(k-1) == 0 && s >= 1 && s < uint64(w)-1 {
+			sh := tt.Const(s, w)
+			bias := func() *Term { // 2^s-1 for negative a, 0 otherwise (rounds the quotient toward zero)
+				return tt.Bin(OpLShr, tt.Bin(OpAShr, a, tt.Const(uint64(w)-1, w)), tt.Const(uint64(w)-s, w))
+			}
+			switch op {
+			case OpUDiv:
+				return tt.Bin(OpLShr, a, sh)
+			case OpURem:
+				return tt.Bin(OpAnd, a, tt.Const(k-1, w))
+			case OpSDiv:
+				return tt.Bin(OpAShr, tt.Bin(OpAdd, a, bias()), sh)
+			case OpSRem:
+				b := bias()
+				return tt.Bin(OpSub, tt.Bin(OpAnd, tt.Bin(OpAdd, a, b), tt.Const(k-1, w)), b)
+			}
+		}
 		if op == OpOr && k == mask(w) {
 			return b
 		}
